@@ -111,6 +111,18 @@ def _keyed_graph(G, rank=None):
 
 # ------------------------------------------------------------------ implementation adapter
 
+def _premises(G):
+    """premises of the theorems, checked on the implementation's view (the model evaluates wfb/kinds_okb/arcs_okb on its own):
+    a simple DiGraph whose kinds are reaction / species, roles None / product / reactant, stoich None or a non-negative integer"""
+    import networkx as nx
+    ok = isinstance(G, nx.DiGraph) and not G.is_multigraph()
+    ok = ok and all(d.get("kind") in KIND for _, d in G.nodes(data=True))
+    for _, _, d in G.edges(data=True):
+        st = d.get("stoich")
+        ok = ok and d.get("role") in ROLE and (st is None or (float(st) == int(st) and int(st) >= 0))
+    return bool(ok)
+
+
 def _impl_net(net, view, stoich):
     from synkit.CRN.Topo.canon import CRNCanonicalizer
     from synkit.CRN.Topo.automorphism import CRNAutomorphism
@@ -140,7 +152,8 @@ def _impl_net(net, view, stoich):
             S([S(sorted(rank[v] for v in o)) for o in s["orbits"]]),
             S(cn), S(ca),
             A["automorphism_count"],
-            S([S(sorted(rank[v] for v in o)) for o in A["orbits"]])]
+            S([S(sorted(rank[v] for v in o)) for o in A["orbits"]]),
+            _premises(G)]
 
 
 def impl(case):
@@ -380,7 +393,7 @@ def distribution(cases, obss):
         cfg[k] = cfg.get(k, 0) + 1
         for r in c["rel"]:
             rels[r] = rels.get(r, 0) + 1
-        if not (isinstance(obs, list) and obs and isinstance(obs[0], list) and len(obs[0]) == 12):
+        if not (isinstance(obs, list) and obs and isinstance(obs[0], list) and len(obs[0]) == 13):
             continue
         for o in obs:
             nets += 1
